@@ -53,6 +53,7 @@ type Node struct {
 	Prefix string
 	Tag    string
 	Attrs  [][2]string
+	Decl   [][2]string // namespace declarations written on this element: {prefix, uri} ("" = default namespace)
 	Kids   []*Node
 	Text   string // Txt: content; Cmt: comment body
 	// Sig
@@ -88,6 +89,7 @@ func (n *Node) Clone() *Node {
 	}
 	c := *n
 	c.Attrs = append([][2]string(nil), n.Attrs...)
+	c.Decl = append([][2]string(nil), n.Decl...)
 	c.Kids = make([]*Node, len(n.Kids))
 	for i, k := range n.Kids {
 		c.Kids[i] = k.Clone()
@@ -173,8 +175,21 @@ func (n *Node) render(sb *strings.Builder, top bool) {
 			name = n.Prefix + ":" + n.Tag
 		}
 		sb.WriteString("<" + name)
+		declared := map[string]bool{}
+		for _, d := range n.Decl {
+			declared[d[0]] = true
+			if d[0] == "" {
+				sb.WriteString(` xmlns="` + escAttr(d[1]) + `"`)
+			} else {
+				sb.WriteString(" xmlns:" + d[0] + `="` + escAttr(d[1]) + `"`)
+			}
+		}
 		if top {
-			sb.WriteString(allDecls)
+			for _, p := range []string{"saml", "samlp", "soap", "x"} {
+				if !declared[p] {
+					sb.WriteString(" xmlns:" + p + `="` + prefixNS[p] + `"`)
+				}
+			}
 		}
 		for _, a := range n.Attrs {
 			sb.WriteString(" " + a[0] + `="` + escAttr(a[1]) + `"`)
@@ -206,8 +221,23 @@ func nsTerm(prefix string) string {
 	return emit.Str(prefixNS[prefix])
 }
 
-// Coq renders the abstract tree as a Gallina term of type node.
-func (n *Node) Coq() string {
+// Coq renders the abstract tree as a Gallina term of type node. Element names are resolved
+// against the namespace declarations in scope (the document root declares the standard prefixes).
+func (n *Node) Coq() string { return n.coq(prefixNS) }
+
+func nsLit(uri string) string {
+	switch uri {
+	case nsA:
+		return "NS_A"
+	case nsP:
+		return "NS_P"
+	case nsSOAP:
+		return "NS_SOAP"
+	}
+	return emit.Str(uri)
+}
+
+func (n *Node) coq(scope map[string]string) string {
 	switch n.Kind {
 	case kTxt:
 		return "(Txt " + emit.Str(n.Text) + ")"
@@ -223,11 +253,12 @@ func (n *Node) Coq() string {
 		case kiBad:
 			ki = "KIBad"
 		}
-		return fmt.Sprintf("(SigN %s %s %s %s %s)", emit.Bool(n.ShapeOK), emit.Str(n.URI), emit.Z(int64(n.Signer)), ki, n.Over.Coq())
+		// the signed content was rendered and signed as a standalone document
+		return fmt.Sprintf("(SigN %s %s %s %s %s)", emit.Bool(n.ShapeOK), emit.Str(n.URI), emit.Z(int64(n.Signer)), ki, n.Over.coq(prefixNS))
 	case kEnc:
 		p := `(El "" "" [] [])`
 		if n.Plain != nil {
-			p = n.Plain.Coq()
+			p = n.Plain.coq(prefixNS)
 		}
 		return fmt.Sprintf("(EncN %d %d %s)", n.Cid, n.St, p)
 	}
@@ -235,11 +266,21 @@ func (n *Node) Coq() string {
 	for i, a := range n.Attrs {
 		attrs[i] = "(" + emit.Str(a[0]) + ", " + emit.Str(a[1]) + ")"
 	}
+	if len(n.Decl) > 0 {
+		ns := map[string]string{}
+		for k, v := range scope {
+			ns[k] = v
+		}
+		for _, d := range n.Decl {
+			ns[d[0]] = d[1]
+		}
+		scope = ns
+	}
 	kids := make([]string, len(n.Kids))
 	for i, k := range n.Kids {
-		kids[i] = k.Coq()
+		kids[i] = k.coq(scope)
 	}
-	t := fmt.Sprintf("(El %s %s %s %s)", nsTerm(n.Prefix), emit.Str(n.Tag), emit.List(attrs), emit.List(kids))
+	t := fmt.Sprintf("(El %s %s %s %s)", nsLit(scope[n.Prefix]), emit.Str(n.Tag), emit.List(attrs), emit.List(kids))
 	if theCtx != nil && len(t) > 120 {
 		return theCtx.Intern("node", t)
 	}
